@@ -1,5 +1,7 @@
 import Mitx.Parser.RoundTripMain
 import Mitx.Parser.Lex
+import Mitx.Parser.Reject
+import Mitx.Parser.LexReject
 /-! # C03 — formula strings evaluate to the value mathematics assigns them
 
 Property theorems only. Model: token-level PEG parser `Mitx/Parser/Syntax.lean`, lexer `Mitx/Parser/Lex.lean`,
@@ -19,5 +21,105 @@ theorem spaces_irrelevant (s s' : String) (h : s.toList.filter (· != ' ') = s'.
     parseString s = parseString s' := by
   unfold parseString lex
   simp only [h]
+
+/-! ## Strings outside the grammar are rejected -/
+
+/-- **Nothing is dropped or reordered**: a successful parse consumed exactly the token string of the tree it returns
+    (`yT` prints a tree back to its tokens), and that string starts with an operand/opening token or a sign, ends with
+    an operand end, and has only admissible adjacent pairs. -/
+theorem parse_yield {ts : List Tok} {t : T} (h : parseToks ts = some t) : ts = yT t ∧ Seg startE ts :=
+  parseToks_sound h
+
+/-- the same for every fuel and every continuation: what `pExpr` consumed is the token string of its result -/
+theorem pExpr_consumes_yield (f : Nat) {ts rest : List Tok} {t : T} (h : pExpr f ts = some (t, rest)) :
+    ts = yT t ++ rest ∧ Seg startE (yT t) :=
+  (snd_all f).expr _ _ _ h
+
+/-- **Doubled operators** are rejected wherever they occur: two binary operators in a row (other than a second `-`,
+    which is a sign, and the two bars of `||`). -/
+theorem reject_doubled_operator (pre post : List Tok) (a b : Tok) (ha : isBinop a = true) (hb : isBinop b = true)
+    (hsign : b ≠ .minus) (hbar : ¬ (a = .pipe ∧ b = .pipe)) : parseToks (pre ++ a :: b :: post) = none := by
+  apply parseToks_bad_pair
+  cases a <;> cases b <;> simp_all [isBinop, Adj, startN, startA]
+
+/-- **Juxtaposition** is rejected wherever it occurs: an operand end (number, name, `)`, `]`) directly followed by the
+    start of another operand (number, name, `(`, `[`) — except `name (`, which is a function call. -/
+theorem reject_juxtaposition (pre post : List Tok) (a b : Tok) (ha : opndEnd a = true) (hb : startA b = true)
+    (hcall : ¬ (isName a = true ∧ b = .lp)) : parseToks (pre ++ a :: b :: post) = none := by
+  apply parseToks_bad_pair
+  cases a <;> cases b <;> simp_all [opndEnd, startA, Adj, isBinop, isCloser, isName]
+
+/-- **Empty brackets and empty argument lists** — `()`, `[]`, `f()` — are rejected wherever they occur, as is an
+    operator or comma directly before a closing bracket. -/
+theorem reject_empty_brackets (pre post : List Tok) (a b : Tok) (ha : opndEnd a = false) (hb : isCloser b = true) :
+    parseToks (pre ++ a :: b :: post) = none := by
+  apply parseToks_bad_pair
+  cases a <;> cases b <;> simp_all [opndEnd, isCloser, Adj, startE, startN, startA]
+
+/-- an operator directly after an opening bracket or comma (other than a sign) is rejected -/
+theorem reject_operator_after_open (pre post : List Tok) (a b : Tok) (ha : a = .lp ∨ a = .lb ∨ a = .comma)
+    (hb : startE b = false) : parseToks (pre ++ a :: b :: post) = none := by
+  apply parseToks_bad_pair
+  rcases ha with rfl | rfl | rfl <;> simpa [Adj] using hb
+
+/-- a string cannot start with a binary operator other than a sign, nor with a closing bracket or comma -/
+theorem reject_leading_operator (t0 : Tok) (r : List Tok) (h0 : startE t0 = false) : parseToks (t0 :: r) = none :=
+  parseToks_bad_start t0 r h0
+
+/-- a string cannot end with an operator, an opening bracket or a comma -/
+theorem reject_trailing_operator (pre : List Tok) (l : Tok) (hl : opndEnd l = false) : parseToks (pre ++ [l]) = none :=
+  parseToks_bad_end pre l hl
+
+theorem reject_empty : parseToks [] = none := parseToks_nil
+
+/-- **Foreign characters**: a character outside the grammar's alphabet, anywhere in the string, makes the parse fail. -/
+theorem reject_foreign_character (src : String) (c : Char) (hc : c ∈ src.toList) (hbad : allowedChar c = false) :
+    parseString src = none :=
+  parseString_rejects_foreign src c hc hbad
+
+/-- non-vacuity / sanity of the tables: the accepted examples satisfy them, the rejected ones do not -/
+example : parseString "2*(x+1)^-2" ≠ none := by decide +kernel
+example : parseString "2**x" = none := by decide +kernel
+example : parseString "(2)x" = none := by decide +kernel
+example : parseString "x y" ≠ none := by decide +kernel   -- spaces are removed first: this is the name `xy`
+example : parseString "f()" = none := by decide +kernel
+example : parseString "x+$" = none := by decide +kernel
+example : allowedChar '$' = false := by decide
+example : allowedChar '—' = true := by decide
+
+/-! ## Redundant parentheses and the node evaluators -/
+
+/-- **Redundant parentheses**: if a token string is a complete expression with value `v` (in whatever context), the
+    same string wrapped in parentheses is again a complete expression — indeed a complete phrase of the tightest
+    level, so it may stand wherever an operand may — with the same value `v`. -/
+theorem parens_redundant {V : Type} (A : Alg V) {L : List Tok} {v : V} (h : PA0 A L v) :
+    PA5 A (Tok.lp :: L ++ [Tok.rp]) v ∧ PA0 A (Tok.lp :: L ++ [Tok.rp]) v :=
+  ⟨paren50 A h, (parens_all A h).2.2.2.2.2.1⟩
+
+/-- `^` is right-associative: `a ^ b ^ c … = a ^ (b ^ (c …))`; a sign on an exponent negates that exponent's value -/
+theorem evalPower_right_assoc {V : Type} (A : Alg V) (s : Bool) (e : V) (rest : List (Bool × V)) (hne : rest ≠ []) :
+    expo A ((s, e) :: rest) = (expo A rest).map (fun r => if s then A.neg (A.pow e r) else A.pow e r) := by
+  cases rest with
+  | nil => exact (hne rfl).elim
+  | cons p ps => obtain ⟨s', e'⟩ := p; simp [expo]
+
+theorem evalPower_last {V : Type} (A : Alg V) (s : Bool) (e : V) :
+    expo A [(s, e)] = some (if s then A.neg e else e) := by simp [expo]
+
+/-- `*` and `/` associate to the left: the value is the left fold of the operand list -/
+theorem evalProduct_foldl {V : Type} (A : Alg V) (a : T) (rest : List (Bool × T)) :
+    evalT A (.prod a rest) = (evalP A rest).foldl (prodStep A) (evalT A a) := by simp [evalT]
+theorem evalProduct_snoc {V : Type} (A : Alg V) (acc : V) (l : List (Bool × V)) (s : Bool) (x : V) :
+    (l ++ [(s, x)]).foldl (prodStep A) acc = (if s then A.div (l.foldl (prodStep A) acc) x else A.mul (l.foldl (prodStep A) acc) x) := by
+  simp [List.foldl_append, prodStep]
+/-- `+` and `-` associate to the left; a leading `+` does not change the value -/
+theorem evalSum_foldl {V : Type} (A : Alg V) (lead : Bool) (a : T) (rest : List (Bool × T)) :
+    evalT A (.sum lead a rest) = (evalP A rest).foldl (sumStep A) (evalT A a) := by simp [evalT]
+theorem evalSum_snoc {V : Type} (A : Alg V) (acc : V) (l : List (Bool × V)) (s : Bool) (x : V) :
+    (l ++ [(s, x)]).foldl (sumStep A) acc = (if s then A.sub (l.foldl (sumStep A) acc) x else A.add (l.foldl (sumStep A) acc) x) := by
+  simp [List.foldl_append, sumStep]
+/-- unary minus negates, parentheses are transparent -/
+theorem evalNegation {V : Type} (A : Alg V) (t : T) : evalT A (.neg t) = A.neg (evalT A t) := by simp [evalT]
+theorem evalParen {V : Type} (A : Alg V) (t : T) : evalT A (.paren t) = evalT A t := by simp [evalT]
 
 end C03
